@@ -49,37 +49,198 @@ func invokesNamed(fn *ssa.Function, method string) []ssa.CallInstruction {
 func isNetConn(t types.Type) bool     { return typeIs(t, "net", "Conn") }
 func isNetListener(t types.Type) bool { return typeIs(t, "net", "Listener") }
 
+// sigHas reports whether f's signature has a parameter (receiver excluded) / result of the given shape.
+func resultsAre(f *ssa.Function, preds ...func(types.Type) bool) bool {
+	res := f.Signature.Results()
+	if res.Len() != len(preds) {
+		return false
+	}
+	for i, pr := range preds {
+		if !pr(res.At(i).Type()) {
+			return false
+		}
+	}
+	return true
+}
+
+func isPacketPtr(t types.Type) bool {
+	pt, ok := t.(*types.Pointer)
+	return ok && typeIs(pt.Elem(), modPath, "Packet")
+}
+
+func isIntType(t types.Type) bool {
+	b, ok := t.Underlying().(*types.Basic)
+	return ok && b.Kind() == types.Int
+}
+
+func hasParam(f *ssa.Function, pred func(types.Type) bool) bool {
+	ps := f.Signature.Params()
+	for i := 0; i < ps.Len(); i++ {
+		if pred(ps.At(i).Type()) {
+			return true
+		}
+	}
+	return false
+}
+
+func isByteSlice(t types.Type) bool {
+	sl, ok := t.Underlying().(*types.Slice)
+	if !ok {
+		return false
+	}
+	b, ok := sl.Elem().Underlying().(*types.Basic)
+	return ok && b.Kind() == types.Uint8
+}
+
+// computeProtected: functions the rules address as units of their own, decided from their signatures and
+// types only (never from names): stream endpoints, constructors, session-table methods, handler entry
+// points and states, goroutine targets.
+func (p *Program) computeProtected() {
+	sid := p.lookupType("", "SessionID")
+	respI := p.lookupType("", "Response")
+	reqT := p.lookupType("", "Request")
+	goTargets := map[*ssa.Function]bool{}
+	for _, f := range p.UFuncs() {
+		for _, b := range f.Blocks {
+			for _, in := range b.Instrs {
+				if g, ok := in.(*ssa.Go); ok {
+					if cf := g.Call.StaticCallee(); cf != nil {
+						goTargets[cf] = true
+					}
+				}
+			}
+		}
+	}
+	for _, f := range p.UFuncs() {
+		sig := f.Signature
+		prot := false
+		switch {
+		case goTargets[f]:
+			prot = true
+		case resultsAre(f, isPacketPtr, isErrorType):
+			// reader, detector, mismatch reply builder: the innermost function of that shape that does the
+			// work itself (a wrapper that merely calls another function of the same shape is a helper)
+			same := func(g *ssa.Function) bool { return resultsAre(g, isPacketPtr, isErrorType) }
+			prot = p.reachesPrimitive(f, same, func(c ssa.CallInstruction) bool {
+				cf := c.Common().StaticCallee()
+				return isFuncNamed(cf, "io", "ReadFull") || isFuncNamed(cf, "errors", "As") || isFuncNamed(cf, modPath, "NewPacket")
+			}, 4)
+		case resultsAre(f, isIntType, isErrorType) && hasParam(f, isPacketPtr):
+			same := func(g *ssa.Function) bool { return resultsAre(g, isIntType, isErrorType) && hasParam(g, isPacketPtr) }
+			prot = p.reachesPrimitive(f, same, func(c ssa.CallInstruction) bool {
+				cc := c.Common()
+				return cc.IsInvoke() && cc.Method.Name() == "Write" && isNetConn(cc.Value.Type())
+			}, 4) // writer
+		case resultsAre(f, isErrorType) && hasParam(f, isPacketPtr) && hasParam(f, isByteSlice):
+			prot = true // pad function
+		}
+		// handler entry points and continuation states: (Response, Request)
+		if respI != nil && reqT != nil && sig.Params().Len() == 2 && types.Identical(sig.Params().At(0).Type(), respI) && types.Identical(sig.Params().At(1).Type(), reqT) {
+			prot = true
+		}
+		// constructors: return a pointer to a struct of their own package that they allocate
+		if sig.Results().Len() >= 1 {
+			if pt, ok := sig.Results().At(0).Type().(*types.Pointer); ok {
+				if n, ok := pt.Elem().(*types.Named); ok && f.Pkg != nil && n.Obj().Pkg() == f.Pkg.Pkg {
+					if _, isStruct := n.Underlying().(*types.Struct); isStruct && sig.Recv() == nil {
+						prot = true
+					}
+				}
+			}
+		}
+		// methods of the session table (a struct holding a map keyed by the session id)
+		if rv := sig.Recv(); rv != nil && sid != nil {
+			if st, ok := derefT(rv.Type()).Underlying().(*types.Struct); ok {
+				for i := 0; i < st.NumFields(); i++ {
+					if m, ok := st.Field(i).Type().Underlying().(*types.Map); ok && types.Identical(m.Key(), sid) {
+						// only the methods that the connection loop itself calls are units; helpers of
+						// those (called only by other methods of the table) are folded
+						prot = p.calledFromOutsideType(f, rv.Type())
+					}
+				}
+			}
+		}
+		if prot {
+			p.prot[f] = true
+		}
+	}
+}
+
+// reachesPrimitive: f performs a call satisfying prim itself or through unexported callees of its package
+// that do not have the same endpoint shape.
+func (p *Program) reachesPrimitive(f *ssa.Function, sameShape func(*ssa.Function) bool, prim func(ssa.CallInstruction) bool, depth int) bool {
+	if f == nil || depth == 0 || len(f.Blocks) == 0 {
+		return false
+	}
+	for _, c := range allCalls(f) {
+		if prim(c) {
+			return true
+		}
+		g := c.Common().StaticCallee()
+		if g == nil || g == f || g.Pkg != f.Pkg || sameShape(g) {
+			continue
+		}
+		if p.reachesPrimitive(g, sameShape, prim, depth-1) {
+			return true
+		}
+	}
+	return false
+}
+
+// calledFromOutsideType: f has a static caller that is not a method of the same receiver type.
+func (p *Program) calledFromOutsideType(f *ssa.Function, recv types.Type) bool {
+	node := p.cgNode(f)
+	if node == nil {
+		return true
+	}
+	for _, e := range node.In {
+		c := e.Caller.Func
+		if c == nil || p.isTestFile(c.Pos()) || e.Site == nil || e.Site.Common().StaticCallee() != f {
+			continue
+		}
+		if c.Signature.Recv() == nil || !types.Identical(derefT(c.Signature.Recv().Type()), derefT(recv)) {
+			return true
+		}
+	}
+	return false
+}
+
 func (p *Program) Roles() *Roles {
 	if p.roles != nil {
 		return p.roles
 	}
+	gProg = p
 	ro := &Roles{}
 	rootFns := p.FuncsIn(func(path string) bool { return path == modPath })
 	isReader := map[*ssa.Function]bool{}
-	for _, f := range rootFns {
-		if len(callsPkgFunc(f, "io", "ReadFull")) > 0 {
+	for _, f0 := range rootFns {
+		f := p.view(f0)
+		if resultsAre(f0, isPacketPtr, isErrorType) && len(callsPkgFunc(f, "io", "ReadFull")) > 0 {
 			ro.Readers = append(ro.Readers, f)
-			isReader[f] = true
+			isReader[f0] = true
 		}
-		for _, c := range invokesNamed(f, "Write") {
-			if isNetConn(c.Common().Value.Type()) {
-				ro.Writers = append(ro.Writers, f)
-				break
+		if resultsAre(f0, isIntType, isErrorType) && hasParam(f0, isPacketPtr) {
+			for _, c := range invokesNamed(f, "Write") {
+				if isNetConn(c.Common().Value.Type()) {
+					ro.Writers = append(ro.Writers, f)
+					break
+				}
 			}
 		}
-		if len(callsPkgFunc(f, "crypto/md5", "New")) > 0 {
+		if resultsAre(f0, isErrorType) && hasParam(f0, isPacketPtr) && hasParam(f0, isByteSlice) && len(callsPkgFunc(f, "crypto/md5", "New")) > 0 {
 			ro.PadFns = append(ro.PadFns, f)
 		}
 	}
 	hn := p.lookupType("", "Handler")
-	for _, f := range rootFns {
+	for _, f0 := range rootFns {
+		f := p.view(f0)
 		callsReader := false
 		for _, c := range allCalls(f) {
 			if isReader[c.Common().StaticCallee()] {
 				callsReader = true
 			}
 		}
-		if callsReader && hn != nil {
+		if callsReader && hn != nil && !p.isHelper(f0, f0) {
 			for _, c := range invokesNamed(f, "Handle") {
 				if types.Identical(c.Common().Value.Type(), hn) {
 					ro.Loops = append(ro.Loops, f)
@@ -92,13 +253,13 @@ func (p *Program) Roles() *Roles {
 			_ = c
 			acc = true
 		}
-		if acc {
+		if acc && !p.isHelper(f0, f0) {
 			var gos []*ssa.Function
 			for _, b := range f.Blocks {
 				for _, in := range b.Instrs {
 					if g, ok := in.(*ssa.Go); ok {
 						if cf := g.Call.StaticCallee(); cf != nil {
-							gos = append(gos, cf)
+							gos = append(gos, p.view(cf))
 						}
 					}
 				}
@@ -120,7 +281,7 @@ func (p *Program) Roles() *Roles {
 				}
 			}
 		}
-		if n > 0 {
+		if n > 0 && resultsAre(f0, isPacketPtr, isErrorType) {
 			ro.Detectors = append(ro.Detectors, f)
 		}
 	}
@@ -129,8 +290,8 @@ func (p *Program) Roles() *Roles {
 			ro.err = append(ro.err, "UNRESOLVED role: "+name)
 		}
 	}
-	need("stream reader (root function calling io.ReadFull)", len(ro.Readers))
-	need("stream writer (root function invoking net.Conn.Write)", len(ro.Writers))
+	need("stream reader (function returning (*Packet, error) that calls io.ReadFull)", len(ro.Readers))
+	need("stream writer (function taking a *Packet that invokes net.Conn.Write)", len(ro.Writers))
 	need("connection loop (calls the reader and invokes Handler.Handle)", len(ro.Loops))
 	need("accept loop (invokes Accept and spawns a goroutine)", len(ro.Serves))
 	need("pad function (calls crypto/md5.New)", len(ro.PadFns))
@@ -141,6 +302,9 @@ func (p *Program) Roles() *Roles {
 	p.roles = ro
 	return ro
 }
+
+// gProg lets identity helpers map views back to the functions they were made from.
+var gProg *Program
 
 // rolesOK records unresolved anchors as undecided obligations.
 func rolesOK(p *Program, r *Result) *Roles {
